@@ -10,22 +10,24 @@
        forall c ops, wf ops = true -> oracle c ops (run c ops) = true
 
    i.e. for every waiting mode, every ordering of UPLOAD/UPLOADED/FAILED events of the service and of
-   other services over any number of directories, and the reply before / between / after the events:
-   create() fires exactly once, at the later of "the reply" and "the first moment the service's own
-   uploads satisfy the success or the all-failed condition", with the outcome that condition gives;
-   never in the op of another service's event; and from then on the HS_DESC listener is gone.
+   other services over any number of directories, and the reply (or a rejection) before / between /
+   after the events: create() fires exactly once, at the later of "the reply" and "the first moment the
+   service's own uploads satisfy the success or the all-failed condition", with the outcome that
+   condition gives; never in the op of another service's event; and from then on the HS_DESC listener
+   is gone.
 
-   It is FALSE of the faithful model (and of the code) on four input classes, each with a witness:
+   It is FALSE of the faithful model (and of the code) on two input classes, each with a witness:
      C15_foreign_events_inert_refuted   (F1, D15a)  UPLOADED of another service for a shared directory
      C15_completion_point_refuted       (F2, D15d)  own events before the reply are ignored
-     C15_await_all_refuted              (F3)        await-all compares set sizes; retry completes early
-     C15_unsubscribes_refuted           (F4)        a rejected command leaves the listener subscribed
+   Repaired in /repo and now covered by the theorems (regression anchors on the old witnesses):
+     C15_await_all_now_accepted         (was F3, fix e8b566b)  await-all compared set sizes
+     C15_rejected_now_accepted          (was F4, fix 3df3186)  a rejected command left the listener
    What IS proved, for ALL histories of unbounded length and any number of directories:
      C15_once                                  at most one completion/failure, on every history whatsoever
-     C15_unsubscribes_always_partial           subscription removed afterwards; hypothesis = no rejection (not F4)
+     C15_unsubscribes_always                   subscription removed afterwards, on every history whatsoever
      C15_foreign_events_inert_partial          foreign events change nothing;   hypothesis = not F1
      C15_ok_only_after_own_upload_partial      Ok only after the reply and an own UPLOADED; hypothesis = not F1
-     C15_model_meets_oracle_partial            the full statement; hypotheses = not F1, F2, F3, F4
+     C15_model_meets_oracle_partial            the full statement; hypotheses = not F1, not F2
    (the last one contains the completion point: in a conformant history the single ODone sits exactly
    in the record where both `accepted` and the first decision hold, with an outcome allowed by it). *)
 From Coq Require Import List Bool Arith NArith.
@@ -38,28 +40,19 @@ Theorem C15_once : forall c ops, (n_done (run c ops) <= 1)%nat.
 Proof. exact run_done_at_most_once. Qed.
 Print Assumptions C15_once.
 
-(* ---- the full statement outside the four finding classes ---- *)
+(* ---- the full statement outside the two open finding classes ---- *)
 Theorem C15_model_meets_oracle_partial : forall c ops,
   wf ops = true ->
   foreign_uploaded_shared_dir c ops = false ->
   own_event_before_reply c ops = false ->
-  await_all_dir_failed_and_uploaded c ops = false ->
-  create_rejected c ops = false ->
   oracle c ops (run c ops) = true.
 Proof. exact model_meets_oracle. Qed.
 Print Assumptions C15_model_meets_oracle_partial.
 
-(* ---- subscription removed after completion AND after failure; full strength would drop the
-        hypothesis, which C15_unsubscribes_refuted shows impossible ---- *)
-Theorem C15_unsubscribes_always_partial : forall c ops,
-  create_rejected c ops = false -> unsub_all c false (run c ops) = true.
+(* ---- subscription removed after completion AND after failure, a rejected command included ---- *)
+Theorem C15_unsubscribes_always : forall c ops, unsub_all c false (run c ops) = true.
 Proof. exact run_unsubscribes. Qed.
-Print Assumptions C15_unsubscribes_always_partial.
-
-Theorem C15_unsubscribes_refuted :
-  exists c ops, wf ops = true /\ unsub_all c false (run c ops) = false.
-Proof. exact rejected_keeps_listener_unsub_refuted. Qed.
-Print Assumptions C15_unsubscribes_refuted.
+Print Assumptions C15_unsubscribes_always.
 
 (* ---- events of other services: deleting them deletes their (empty) records and nothing else ---- *)
 Theorem C15_foreign_events_inert_partial : forall c ops,
@@ -80,23 +73,30 @@ Theorem C15_ok_only_after_own_upload_partial : forall c ops,
 Proof. exact run_ok_only_after. Qed.
 Print Assumptions C15_ok_only_after_own_upload_partial.
 
-(* ---- witnesses of the other findings (each outside the classes listed before it) ---- *)
+(* ---- witness of the other open finding (outside the class listed before it) ---- *)
 Theorem C15_completion_point_refuted :
   exists c ops, wf ops = true /\ foreign_uploaded_shared_dir c ops = false /\ oracle c ops (run c ops) = false.
 Proof. exact event_before_reply_refuted. Qed.
 Print Assumptions C15_completion_point_refuted.
 
-Theorem C15_await_all_refuted :
-  exists c ops, wf ops = true /\ foreign_uploaded_shared_dir c ops = false /\ own_event_before_reply c ops = false
-    /\ oracle c ops (run c ops) = false.
-Proof. exact await_all_retry_refuted. Qed.
-Print Assumptions C15_await_all_refuted.
+(* ---- regression anchors: the witnesses of the repaired findings are accepted now ---- *)
+Theorem C15_await_all_now_accepted :
+  let c := {| c_await := true; c_own := 1; c_early := false; c_shared := false; c_progress := true |} in
+  let ops := [Reply; Ev KUpload 1 1; Ev KUpload 1 2; Ev KFailed 1 1; Ev KUpload 1 1; Ev KUploaded 1 1] in
+  oracle c ops (run c ops) = true
+  /\ n_dones_of (run c ops) = 0%nat
+  /\ oracle c (ops ++ [Ev KFailed 1 2]) (run c (ops ++ [Ev KFailed 1 2])) = true
+  /\ n_dones_of (run c (ops ++ [Ev KFailed 1 2])) = 1%nat.
+Proof. exact await_all_retry_now_accepted. Qed.
+Print Assumptions C15_await_all_now_accepted.
 
-Theorem C15_rejected_refuted :
-  exists c ops, wf ops = true /\ foreign_uploaded_shared_dir c ops = false /\ own_event_before_reply c ops = false
-    /\ await_all_dir_failed_and_uploaded c ops = false /\ oracle c ops (run c ops) = false.
-Proof. exact rejected_keeps_listener_refuted. Qed.
-Print Assumptions C15_rejected_refuted.
+Theorem C15_rejected_now_accepted :
+  let c := {| c_await := false; c_own := 1; c_early := false; c_shared := false; c_progress := true |} in
+  oracle c [Reject] (run c [Reject]) = true
+  /\ unsub_all c false (run c [Reject]) = true
+  /\ map r_ncb (run c [Reject]) = [1; 0].
+Proof. exact rejected_now_accepted. Qed.
+Print Assumptions C15_rejected_now_accepted.
 
 (* the hypotheses of the partial theorems are satisfiable by a non-trivial history: await-all, two
    directories, one upload fails, the other succeeds, a foreign event in between, reply first *)
@@ -104,7 +104,6 @@ Example C15_nonvacuous :
   let c := {| c_await := true; c_own := 1; c_early := false; c_shared := false; c_progress := true |} in
   let ops := [Reply; Ev KUpload 1 1; Ev KUpload 1 2; Ev KFailed 2 1; Ev KFailed 1 1; Ev KUploaded 1 2] in
   wf ops = true /\ foreign_uploaded_shared_dir c ops = false /\ own_event_before_reply c ops = false
-  /\ await_all_dir_failed_and_uploaded c ops = false /\ create_rejected c ops = false
   /\ map (fun r => dones (r_evs r)) (run c ops) = [[]; []; []; []; []; []; [ROk true]]
   /\ map r_ncb (run c ops) = [1; 1; 1; 1; 1; 1; 0].
 Proof. vm_compute. repeat split; reflexivity. Qed.
